@@ -393,6 +393,23 @@ def recipe(rng, case, idx):
     liqs = liquids(w.subs)
     cn, pn = w.containers(), w.plates()
     infeasible = rng.random() < 0.3
+    # a refused declaration declares nothing (a repeated object, a wrong type after valid ones)
+    if len(objs) >= 2:
+        r0 = pp.Recipe()
+        a_, b_ = list(objs.values())[:2]
+        for bad_ in ((a_, b_, a_), ([a_, b_], 'nope'), (a_, [b_, a_]), (b_, 7)):
+            M.count('IMMUT.refused_uses')
+            M.bucket('C04/recipe/refused_uses')
+            with M.active(case):
+                try:
+                    r0.uses(*bad_)
+                    M.violate(['C16'], 'IMMUT', 'C16:uses_with_repeated_or_invalid_argument_accepted', {'args': repr(bad_)[:120]})
+                except (ValueError, TypeError):
+                    pass
+            if r0.results:
+                M.violate(['C04', 'C16'], 'IMMUT', 'C04:refused_uses_declared_some_of_its_arguments',
+                          {'args': [getattr(x_, 'name', repr(x_)[:30]) for x_ in bad_], 'declared': sorted(r0.results)})
+                break
     with M.active(case):
         try:
             r.uses(*objs.values())
@@ -437,7 +454,19 @@ def recipe(rng, case, idx):
                         r.remove(objs[n], R.ENZYME)
                     else:
                         r.remove(objs[n], R.ENZYME)
-            res = r.bake()
+            from pv.recipes import recipe_state, rebake_after_refusal
+            from pv.monitors import MonitorBug, InjectedFault
+            with M.oracle():
+                state0 = recipe_state(r)
+            try:
+                res = r.bake()
+            except (MonitorBug, InjectedFault):
+                raise
+            except Exception as e_bake:   # noqa
+                # a bake that raises (a step turned out infeasible, an object was left unused) leaves the recipe as it was
+                M.bucket('C04/recipe/bake_refused')
+                rebake_after_refusal(r, state0, e_bake, {'case': 'C04 recipe job', 'steps': [s_.operator for s_ in r.steps]})
+                raise
             M.bucket('C04/recipe/baked')
             # ---- asking the baked recipe questions changes neither what bake returned nor what was handed in
             after_bake = {n_: F.fingerprint(o_) for n_, o_ in res.items()}
